@@ -795,6 +795,28 @@ class Interp:
         if "indirect" in ce:
             fv = self.operand(ctx, path, ce["indirect"])
             name = "indirect"
+            # call through a fn pointer whose target is statically known (fn item or non-capturing closure)
+            tgt = None
+            targs = args
+            if isinstance(fv, tuple) and fv and fv[0] == "fn":
+                tgt = self._find_any(fv[1])
+            elif isinstance(fv, tuple) and fv and fv[0] == "agg" and fv[1].startswith("closure:") and not fv[2]:
+                tgt = self._find_any(fv[1][len("closure:"):])
+                targs = [fv] + list(args)
+            if tgt is not None and self.inline and ctx["depth"] < MAX_DEPTH:
+                results = self.run(tgt, args=targs, path=path, depth=ctx["depth"] + 1, subst=ctx["subst"])
+                conts = [r_ for r_ in results if r_.kind == "return"]
+                for r_ in results:
+                    if r_.kind != "return":
+                        out.append(r_)
+                if len(conts) == 1 and t["t"] is not None:
+                    p2 = conts[0].path
+                    if p2 is not path:
+                        path.__dict__.update(p2.__dict__)
+                    self.write(path, dest, conts[0].ret)
+                    return t["t"]
+                if not conts:
+                    return None
             res = ("call", "indirect", (fv,) + tuple(self.argval(path, a) for a in args))
             self.event(path, "call", name, ce, args, site, blk, dest_ty, ctx)
             self.write(path, dest, res)
@@ -1158,6 +1180,13 @@ class Interp:
                 return self.content(path, a0[1])
             return NotImplemented
         return NotImplemented
+
+    def _find_any(self, key):
+        for c in self.w.crates.values():
+            f = c.fns.get(key)
+            if f is not None:
+                return f
+        return None
 
     def sink_of(self, path, wv, depth=0):
         """Underlying object a WriteBytes adapter forwards to (adapters are checked separately, R15.2)."""
